@@ -98,7 +98,7 @@ class Homog:
             try:
                 out = ANY
                 for d in ds:
-                    out = self._add(out, self.deg(d))
+                    out = Homog._add(out, self.deg(d))  # alternative definitions, not a sum
                     if out is None:
                         return None
                 return out
@@ -139,7 +139,7 @@ class Homog:
         if isinstance(e, (ast.Tuple, ast.List)):
             out = ANY
             for x in e.elts:
-                out = self._add(out, self.deg(x))
+                out = Homog._add(out, self.deg(x))  # a container, not a sum: elements of different degree are no inconsistency
             return out
         if isinstance(e, (ast.GeneratorExp, ast.ListComp)):
             sub = type(self)(self.r, self.ctx, self.seeds, self.attr, self.use_defs)
@@ -328,6 +328,7 @@ class Flow:
         self.stores = []  # (receiver text, field, degree set, node)
         self.returns = []  # (degree set, node)
         self.exit_envs = []  # environments at the returns
+        self.tuples = {}  # name -> degree sets of the items of a tuple literal bound to it
         self.cur_env = {}
 
     def degs(self, e, env):
@@ -370,6 +371,14 @@ class Flow:
     def bind(self, tgt, src, env):
         self.cur_env = env
         self.cur_target = seg(tgt, 60)
+        if isinstance(tgt, ast.Name) and isinstance(src, (ast.Tuple, ast.List)):
+            # a tuple of matrices handed on as one value: remember the degrees of its items
+            self.tuples[tgt.id] = [self.degs(x, env) for x in src.elts]
+        if isinstance(tgt, (ast.Tuple, ast.List)) and isinstance(src, ast.Name) and len(self.tuples.get(src.id, ())) == len(tgt.elts):
+            for t, v in zip(tgt.elts, self.tuples[src.id]):
+                if isinstance(t, ast.Name):
+                    env[t.id] = v
+            return
         if isinstance(tgt, ast.Name):
             if isinstance(src, ast.Call):
                 res = self.call_result(src, 1)
